@@ -1,0 +1,26 @@
+# GTIRB-Rewriting Rewriting API for GTIRB
+#
+# Verification hooks. These do nothing unless the GTIRB_REWRITING_VERIF
+# environment variable is set to "1" when this module is imported; with the
+# variable unset no callback list is ever consulted.
+
+import os
+from typing import Any, Callable, List
+
+ENABLED = os.environ.get("GTIRB_REWRITING_VERIF") == "1"
+
+_callbacks: List[Callable[..., None]] = []
+
+
+def register(callback: Callable[..., None]) -> None:
+    _callbacks.append(callback)
+
+
+def unregister(callback: Callable[..., None]) -> None:
+    if callback in _callbacks:
+        _callbacks.remove(callback)
+
+
+def fire(event: str, **kwargs: Any) -> None:
+    for callback in tuple(_callbacks):
+        callback(event, **kwargs)
